@@ -751,3 +751,24 @@ def replay_c12(path):
         print(err)
         return False
     return sites.replay_site(path, run_tool)
+
+
+# ---------------------------------------------------------------------------------------------
+# C04: short-circuit expressions (the operators the constant folder re-implements) as emitted by the compiler
+# ---------------------------------------------------------------------------------------------
+def run_c04(prop, tier, seed):
+    import flow
+    ev = dict(engine='Bx', violations=[], known_hits=[], problems=[], coverage={})
+    err = build_native()
+    if err:
+        ev['problems'].append('engine B: native tools did not build: ' + err[-400:])
+        return ev
+    fl = flow.run_flow(prop, tier, seed, run_tool, fam_fn=flow.expression_family)
+    ev['violations'] = fl['violations']
+    ev['problems'] = fl['problems']
+    ev['coverage'] = fl['coverage']
+    c = fl['coverage']
+    log('[%s] engine B short-circuit expressions: %d programs, %d bytecode paths, %d queries: unsat=%d sat=%d (confirmed natively %d); reference validated on %d native renders (%d mismatches)' % (
+        prop, c.get('programs', 0), c.get('bytecode_paths', 0), c.get('queries', 0), c.get('unsat', 0), c.get('sat', 0), c.get('sat_confirmed_natively', 0),
+        c.get('native_validation_renders', 0), c.get('native_validation_mismatches', 0)))
+    return ev
